@@ -68,8 +68,8 @@ class TComp(fm.TimeComponent):
         st = self.spec["steps"]
         return D(st[self.cnt % len(st)])
 
-    @property
-    def next_time(self):
+    def _next_time(self):
+        # the SDK hook: TimeComponent.next_time (sdk/component.py) calls it
         return self.time + self._step()
 
     def _initialize(self):
